@@ -174,6 +174,46 @@ def run(ctx):
         ctx.violation('rotation:tree-inverse', f'leaf {p1}: inverse rotation of the tree does not restore the leaf (key {100 + kseed})', replay={'key': 100 + kseed})
       if abs(np.linalg.norm(np.asarray(l3)) - np.linalg.norm(np.asarray(l1))) > 1e-5 * np.linalg.norm(np.asarray(l1)):
         ctx.violation('rotation:tree-norm', f'leaf {p1}: rotation of the tree changes the norm (key {100 + kseed})', replay={'key': 100 + kseed})
+  # the same tree rotated under a succession of FRESH key objects (each created after the previous one was dropped, as in a
+  # loop over rounds): different keys give different rotations, and a value-equal key made later inverts
+  tree_f = {'w': jnp.array(nprng.randn(3, 5), jnp.float32), 'b': jnp.array(nprng.randn(7), jnp.float32)}
+  rotated = []
+  for seed_k in range(8):
+    key = jax.random.PRNGKey(500 + seed_k)
+    rt, shapes_t = wh.structured_rotation_pytree(tree_f, key)
+    rotated.append((seed_k, rt, shapes_t))
+    del key
+  nrot += 8
+  for i in range(8):
+    for j in range(i + 1, 8):
+      if np.allclose(np.asarray(rotated[i][1]['w']), np.asarray(rotated[j][1]['w'])):
+        ctx.violation('rotation:tree-same-for-different-keys', f'keys {500 + i} and {500 + j} (fresh key objects, one after the other) rotate the tree identically', replay={'keys': [500 + i, 500 + j]})
+        break
+  for seed_k, rt, shapes_t in rotated:
+    bk = wh.inverse_structured_rotation_pytree(rt, jax.random.PRNGKey(500 + seed_k), shapes_t)
+    if not np.allclose(np.asarray(bk['w']), np.asarray(tree_f['w']), rtol=2e-5, atol=2e-6) or not np.allclose(np.asarray(bk['b']), np.asarray(tree_f['b']), rtol=2e-5, atol=2e-6):
+      ctx.violation('rotation:tree-inverse', f'a value-equal key created later does not invert the rotation made with key {500 + seed_k}', replay={'key': 500 + seed_k})
+  # "all real input arrays": integer and boolean dtypes too (norm and inverse in float arithmetic)
+  for dt in (np.uint8, np.uint16, np.int8, np.int32, np.bool_, np.float16):
+    for shp in ((5,), (4, 4), (9,)):
+      x = (nprng.randint(0, 2, size=shp) if dt == np.bool_ else nprng.randint(90, 120, size=shp)).astype(dt)
+      key = jax.random.PRNGKey(77)
+      nrot += 1
+      cfg = dict(shape=shp, dtype=np.dtype(dt).name)
+      ctx.case(key=('rot-dtype', shp, cfg['dtype']), nontrivial=True)
+      try:
+        rot, oshape = wh.structured_rotation(jnp.array(x), key)
+        back = wh.inverse_structured_rotation(rot, key, oshape)
+      except Exception as ex:  # pylint: disable=broad-except
+        ctx.violation(f'rotation:exception:{type(ex).__name__}', f'{type(ex).__name__}: {str(ex)[:160]} for {cfg}', replay={'cfg': cfg})
+        continue
+      xf = x.astype(np.float64)
+      nx, nr = np.linalg.norm(xf), np.linalg.norm(np.asarray(rot, np.float64))
+      tolr = 2e-3 if dt == np.float16 else 1e-5
+      if abs(nr - nx) > tolr * nx + 1e-6:
+        ctx.violation('rotation:norm', f'|rotate(x)| = {nr} but |x| = {nx} for {cfg}', replay={'cfg': cfg})
+      elif np.asarray(back).shape != x.shape or not np.allclose(np.asarray(back, np.float64), xf, rtol=tolr, atol=tolr * 100):
+        ctx.violation('rotation:inverse', f'inverse(rotate(x)) != x for {cfg}', replay={'cfg': cfg, 'x': x.tolist(), 'back': np.asarray(back).tolist()})
   ctx.trace_ok(nrot)
   ctx.leg('R', rotation_cases=nrot)
   # information only: rank-0
